@@ -399,6 +399,9 @@ def spec_raw_color(mode, color):
         s = c1 / 100 * 65535
         b = c2 / 100 * 65535
     else:
+        for c in (c0, c1, c2):
+            if c < 0 or c > 100:
+                raise OutOfScope('rgb component outside 0..100')
         hh, ss, vv = rgb_to_hsv(c0 / 100, c1 / 100, c2 / 100)
         h, s, b = hh * 65535, ss * 65535, vv * 65535
     return [Approx(clamp(h, 0, 65535), circ=65535), Approx(clamp(s, 0, 65535)),
@@ -982,7 +985,12 @@ def _cmp_field(g, e, where, cons):
         if e.circ is not None:
             ok = z3.Or(ok, z3.And(gt - et >= e.circ - half, gt - et <= e.circ + half),
                        z3.And(et - gt >= e.circ - half, et - gt <= e.circ + half))
-        cons.append((where + ' nearest', ok))
+        margin = half + symx.term(Fraction(1, 50))
+        robust = z3.Or(d > margin, -d > margin)
+        if e.circ is not None:
+            robust = z3.And(robust, z3.Or(d < e.circ - margin, d > e.circ + margin),
+                            z3.Or(-d < e.circ - margin, -d > e.circ + margin))
+        cons.append((where + ' nearest', ok, robust))
         if isinstance(g, symx.SymNum):
             if not g.is_int:
                 cons.append((where + ' integer', z3.IsInt(g.e)))
@@ -1000,7 +1008,12 @@ def _cmp_field(g, e, where, cons):
     if symx.is_sym(g) or symx.is_sym(e):
         if isinstance(g, str) or isinstance(e, str) or g is None or e is None:
             return '%s: got %r expected %r' % (where, g, e)
-        cons.append((where, symx.eq(g, e)))
+        try:
+            dd = symx.term(g) - symx.term(e)
+            robust = z3.Or(dd > symx.term(Fraction(1, 1000)), -dd > symx.term(Fraction(1, 1000)))
+        except TypeError:
+            robust = None
+        cons.append((where, symx.eq(g, e), robust))
         return None
     if isinstance(e, str) or isinstance(g, str) or e is None or g is None:
         if not (type(g) is type(e) and g == e):
